@@ -169,3 +169,39 @@ Proof.
   rewrite Hv3, <- map_app in H. destruct (spec_outs_values (v3 ++ map skipped_item sk)) as (Ho1 & Ho2 & _).
   rewrite Ho1, Ho2 in H. cbn [option_map] in H. rewrite combine_fst_snd in H. inversion H. reflexivity.
 Qed.
+
+(** *** without the hypothesis of distinct effective keys (two fields may claim one key: the derive
+    accepts it) *)
+Lemma sp_find_first fs k : forall i0 i f, sp_find fs k i0 = Some (i, f) ->
+  forall j g, (j < i - i0)%nat -> nth_error fs j = Some g -> sp_key g <> k.
+Proof.
+  induction fs as [|h fs IH]; intros i0 i f H j g Hj Hn; [discriminate|]. cbn [sp_find] in H.
+  destruct (String.eqb (sp_key h) k) eqn:E.
+  - inversion H; subst. lia.
+  - destruct j as [|j]; cbn [nth_error] in Hn.
+    + inversion Hn; subst. intros Hk. rewrite Hk, String.eqb_refl in E. discriminate.
+    + apply (IH (S i0) i f H j g); [|exact Hn]. destruct (sp_find_key fs k (S i0) i f H) as (_ & _ & Hle). lia.
+Qed.
+
+(** C07, "from no other entry", for every field list: a member can only fill a field whose
+    effective key is exactly the member's key - and it fills the first field declared with that key *)
+Theorem member_fills_first_claimant fs d l k v i :
+  fst (s_member fs d l (k, v)) = Some i ->
+  exists f, nth_error fs i = Some f /\ sp_key f = k
+            /\ forall j g, (j < i)%nat -> nth_error fs j = Some g -> sp_key g <> k.
+Proof.
+  rewrite s_member_unfold. destruct (sp_find fs k 0) as [[j f]|] eqn:E; cbn [fst]; [|discriminate].
+  intros H. inversion H; subst j. destruct (sp_find_key fs k 0 i f E) as (Hk & Hn & _). rewrite Nat.sub_0_r in Hn.
+  exists f. split; [exact Hn|]. split; [exact Hk|]. intros j g Hj Hg.
+  apply (sp_find_first fs k 0 i f E j g); [lia|exact Hg].
+Qed.
+
+(** ... and a member whose key is the effective key of some field fills a field *)
+Theorem member_with_claimed_key_fills fs d l k v f :
+  In f fs -> sp_key f = k -> exists i, fst (s_member fs d l (k, v)) = Some i.
+Proof.
+  intros Hin Hk. rewrite s_member_unfold. destruct (sp_find fs k 0) as [[j g]|] eqn:E; cbn [fst]; [exists j; reflexivity|].
+  exfalso. clear - Hin Hk E. revert E. generalize 0%nat. induction fs as [|h fs IH]; intros i0 E; [destruct Hin|].
+  cbn [sp_find] in E. destruct (String.eqb (sp_key h) k) eqn:Eh; [discriminate|].
+  destruct Hin as [->|Hin]; [rewrite Hk, String.eqb_refl in Eh; discriminate|]. exact (IH Hin (S i0) E).
+Qed.
